@@ -1,5 +1,6 @@
 """C10 — numeric accessors and mutators are exact when representable, else saturating."""
 import math
+import os
 import random
 
 from vflib import core, build
@@ -53,6 +54,21 @@ def rand_numstring(rng):
         if rng.random() < 0.15:
             s = (s[0] if s[0] in "+-" else "") + "0" * rng.choice([1, 2, 7, 20]) + s.lstrip("+-")
         s = rng.choice(["", "", "", " ", "  ", "\t", "\n ", " \t"]) + s + rng.choice(["", "", "", " ", "x", "abc", ".5", "e3", "\n"])
+        return s.encode()
+    if r < 0.55:
+        # decimal texts over the whole double range: every exponent decade incl. the subnormal band (1e-308..5e-324), overflow band, %.17g of random doubles
+        k = rng.random()
+        if k < 0.4:
+            s = "%s%d.%se%s%d" % (rng.choice(["", "-", "+"]), rng.randrange(1, 10), "".join(rng.choice("0123456789") for _ in range(rng.choice([0, 1, 5, 16, 25]))),
+                                  rng.choice(["", "-", "-", "+"]), rng.choice([0, 1, 15, 22, 23, 300, 306, 307, 308, 309, 310, 315, 320, 322, 323, 324, 325, 330, 400, 4000]))
+        elif k < 0.7:
+            s = "%.17g" % rand_double(rng)
+        else:
+            s = ("0." + "0" * rng.choice([0, 5, 22, 300, 307, 310, 320, 323, 330]) + "".join(rng.choice("0123456789") for _ in range(rng.choice([1, 3, 17]))))
+        if rng.random() < 0.1:
+            s = rng.choice([" ", "\t"]) + s
+        if rng.random() < 0.1:
+            s += rng.choice([" ", "x", "e", ".", "1.0"])
         return s.encode()
     if r < 0.7:
         s = rng.choice(["1.5", "-2.25", "0.0", "1e3", "1E-3", "123.456e2", ".5", "5.", "-.5e1", "1e308", "1e309", "-1e400", "1e-300", "0.1", "3.0", "-0", "  7.5", "7.5 ", "1.5x", "1e", "1e+"])
@@ -172,7 +188,14 @@ def shard_fn(shard, nshards, seed, tier, exe, ncases):
                     ops.append(("SET", "dbl", rand_double(rng)))
                 else:
                     ops.append(("SET", "bool", rng.randrange(2)))
-        cmds = ["B 0 " + " ".join(toks), "NUM 0"]
+        pre = []
+        if node[0] == "string" and rng.random() < 0.4:
+            # the text arrives through set_string on an existing node (shorter, longer or equal previous contents: inline and separately allocated storage)
+            first = rng.choice([b"", b"7", b"x" * 7, b"y" * 8, b"z" * 40, node[1] + b"0", node[1][:-1]])
+            toks = ["s" + first.hex()]
+            pre = [("SSTRZ" if b"\0" not in node[1] and rng.random() < 0.3 else "SSTR") + " 0 x" + node[1].hex()]
+            sh.count("string_nodes_set_after_creation." + ("grown" if len(node[1]) > len(first) else "shrunk_or_same"))
+        cmds = ["B 0 " + " ".join(toks)] + pre + ["NUM 0"]
         for op in ops:
             if op[0] == "INC":
                 cmds.append("INC 0 %d" % op[1])
@@ -183,20 +206,20 @@ def shard_fn(shard, nshards, seed, tier, exe, ncases):
             cmds.append("NUM 0")
         cmds.append("PUT 0")
         cases.append((cid, cmds))
-        meta[cid] = (toks, node, ops)
+        meta[cid] = (toks, node, ops, len(pre))
     results, crashes = core.run_script(exe, cases, tag="c10")
     cmdmap = dict(cases)
     for cr in crashes:
         kind, frame = cr.summary()
-        toks, node, ops = meta[cr.cid]
+        toks, node, ops, npre = meta[cr.cid]
         sh.violation("C10/%s/%s" % (kind, frame), "undefined operation / crash in an accessor: %s in %s on node %s ops %s (died in command #%d: %s)" % (
             kind, frame, toks, ops, len(cr.partial), cmdmap[cr.cid][min(len(cr.partial), len(cmdmap[cr.cid]) - 1)]),
                      {"driver": "jcdrv", "variant": "asan", "script": cmdmap[cr.cid], "stderr": cr.stderr[-2500:]})
     for cid, lines in results.items():
-        toks, node, ops = meta[cid]
+        toks, node, ops, npre = meta[cid]
         rep = {"driver": "jcdrv", "variant": "asan", "script": cmdmap[cid]}
-        compare(sh, lines[1], node, rep, "")
-        li = 2
+        compare(sh, lines[1 + npre], node, rep, "")
+        li = 2 + npre
         for op in ops:
             ret = int(lines[li].split()[1])
             k, p = node
@@ -226,8 +249,12 @@ def run(tier, seed):
     selftest_more.test_refnum()
     bdir = build.build("asan")
     chk = core.Check(PID, tier, seed)
+    rd = core.record_dir(PID) if tier == "thorough" else None
     sh = core.parallel(shard_fn, seed=seed, tier=tier, exe=bdir + "/jcdrv", ncases=200000 if tier == "quick" else 4000000)
     chk.absorb(sh)
+    if rd:
+        os.environ.pop("VF_RECORD_DIR", None)
+        core.memcheck_recorded(chk, build.build("plain"), rd)
     chk.rule = ("nodes of every kind with values on the 0/2^31/2^32/2^53/2^63/2^64 lattices (+-3, +-ulps for doubles), random 64-bit patterns, inf/NaN/subnormals, numeric-looking and non-numeric strings; "
                 "all five getters (value + errno) compared with exact-arithmetic tables after construction and after every set_*/int_inc step; any UBSan report (float-cast-overflow, signed overflow, negation) "
                 "aborts the case and is a violation. evaluations = (node state, accessor) pairs; distinct = distinct scripts")
